@@ -117,10 +117,27 @@ def _mk_crafty():
     return Crafty, SignalStep
 
 
+def functional_flags(spec):
+    """(f given, f.has_eval, [g.has_eval ...]) of the problem `build` constructs"""
+    he, he2 = bool(spec.get("has_eval", True)), bool(spec.get("has_eval2", True))
+    c = spec["cls"]
+    if c == "admm":
+        return True, True, [he, he2]  # f is a loss; g_list = [crafted g, crafted f]
+    if c in ("pgm", "apgm"):
+        return True, True, [he]  # f is a loss, g crafted
+    return True, he, [he2]
+
+
+def objective_evaluable(spec):
+    """documented: the objective column exists iff every functional of the problem can be evaluated"""
+    fg, fh, gs = functional_flags(spec)
+    return ((not fg) or fh) and all(gs)
+
+
 def n_default_fields(spec):
     """number of statistics columns the class produces by default (Iter, Time, [Objective], class columns)"""
     c = spec["cls"]
-    n = 2 + (1 if spec.get("has_eval", True) else 0) + 2
+    n = 2 + (1 if objective_evaluable(spec) else 0) + 2
     if c == "admm":
         n += {"generic": 2, "linearScicoCG": 2, "checked": 1}.get(spec.get("solver", "linearScicoCG"), 0)
     return n
@@ -163,6 +180,7 @@ def build(spec, _opts=None, **extra_kwargs):
     x0b = snp.blockarray([np.zeros(2), np.zeros(n)])
     yb = snp.blockarray([np.ones(2) / 2.0, np.arange(n, dtype=f64) / 4.0])
     he = bool(spec.get("has_eval", True))
+    he2 = bool(spec.get("has_eval2", True))
 
     if cls == "admm":
         solver = spec.get("solver", "linearScicoCG")
@@ -182,7 +200,7 @@ def build(spec, _opts=None, **extra_kwargs):
         C1 = Cb if block else I
         return optimize.ADMM(
             f=f,
-            g_list=[crafted("g", has_eval=he), crafted("f")],
+            g_list=[crafted("g", has_eval=he), crafted("f", has_eval=he2)],
             C_list=[C1, I],
             rho_list=[1.0, 2.0],
             x0=x0,
@@ -191,20 +209,20 @@ def build(spec, _opts=None, **extra_kwargs):
         )
     if cls == "ladmm":
         if block:
-            return optimize.LinearizedADMM(f=crafted("f", has_eval=he), g=crafted("g"), C=Cb, mu=0.125, nu=0.5, x0=x0, **kwargs)
-        return optimize.LinearizedADMM(f=crafted("f", has_eval=he), g=crafted("g"), C=I, mu=0.25, nu=0.5, x0=x0, **kwargs)
+            return optimize.LinearizedADMM(f=crafted("f", has_eval=he), g=crafted("g", has_eval=he2), C=Cb, mu=0.125, nu=0.5, x0=x0, **kwargs)
+        return optimize.LinearizedADMM(f=crafted("f", has_eval=he), g=crafted("g", has_eval=he2), C=I, mu=0.25, nu=0.5, x0=x0, **kwargs)
     if cls == "padmm":
         A = Ib if block else I
-        return optimize.ProximalADMM(f=crafted("f", has_eval=he), g=crafted("g"), A=A, rho=1.0, mu=0.5, nu=0.5, **kwargs)
+        return optimize.ProximalADMM(f=crafted("f", has_eval=he), g=crafted("g", has_eval=he2), A=A, rho=1.0, mu=0.5, nu=0.5, **kwargs)
     if cls == "nlpadmm":
         H = function.Function(
             ((n,), (n,)), output_shape=(n,), eval_fn=lambda x, z: x - z, input_dtypes=f64, output_dtype=f64
         )
-        return optimize.NonLinearPADMM(f=crafted("f", has_eval=he), g=crafted("g"), H=H, rho=1.0, mu=0.5, nu=0.5, **kwargs)
+        return optimize.NonLinearPADMM(f=crafted("f", has_eval=he), g=crafted("g", has_eval=he2), H=H, rho=1.0, mu=0.5, nu=0.5, **kwargs)
     if cls == "pdhg":
         if block:
-            return optimize.PDHG(f=crafted("f", has_eval=he), g=crafted("g"), C=Cb, tau=0.25, sigma=0.25, x0=x0, **kwargs)
-        return optimize.PDHG(f=crafted("f", has_eval=he), g=crafted("g"), C=I, tau=0.25, sigma=0.25, x0=x0, **kwargs)
+            return optimize.PDHG(f=crafted("f", has_eval=he), g=crafted("g", has_eval=he2), C=Cb, tau=0.25, sigma=0.25, x0=x0, **kwargs)
+        return optimize.PDHG(f=crafted("f", has_eval=he), g=crafted("g", has_eval=he2), C=I, tau=0.25, sigma=0.25, x0=x0, **kwargs)
     if cls in ("pgm", "apgm"):
         L0 = 2.0
         at = nan["at"] if nan else None
@@ -282,7 +300,7 @@ def accessor_values(spec, s):
     """(column name, value) of every statistics column other than Iter/Time, through the public accessors"""
     c = spec["cls"]
     out = []
-    if spec.get("has_eval", True):
+    if objective_evaluable(spec):
         out.append(("Objective", s.objective()))
     if c in ("pgm", "apgm"):
         out += [("L", s.L), ("Residual", s.norm_residual())]
